@@ -254,6 +254,11 @@ Definition read_u8 (st : sys S) : option (sys S * Z) :=
   if br_nil (snd x) then Some (fst x, 0)
   else c <- peekz (br_data (snd x)) 0 ;; Some (fst x, c).
 
+(* Seek.  Go computes in int64; Z is exact here: Len() >= 0 for every constructor and 0 <= r.pos <= Len()
+   is kept by Seek, so the only sum that can overflow is r.pos+off with a huge positive off, which wraps to a
+   negative number and is rejected by "r.pos+off < 0" - the same verdict as "Len() < r.pos+off" over Z.
+   -r.f.Len() and r.f.Len()+off (evaluated only for -Len <= off <= 0) cannot overflow.  The harness drives
+   off = MaxInt64 / MinInt64 through every whence. *)
 Definition seek (st : sys S) (off whence : Z) : sys S * obs :=
   let c := cur st in
   let L := blen B (bst st) in
